@@ -438,6 +438,10 @@ func cases(c *core.Ctx) []ccase {
 }
 
 func run(c *core.Ctx) {
+	// generic checks (lg.Independence): every World.Run below validates the
+	// same objects three times (verdict / quantities must not change) and
+	// re-runs rejected transactions in other presentations (map key order)
+	lg.EnableChecks(c).PresentationSample = 3 // the variants for one in 3 rejected cases
 	// pre-flight: ample ada-only collateral is accepted in every (era, form)
 	for _, e := range eras {
 		for _, inv := range forms(e) {
